@@ -46,6 +46,7 @@ type interpreter struct {
 	side      map[*value]interface{} // side tables for modelled objects (big.Int terms, mutex state...)
 	sideOrder []*value
 	objSeq    int
+	bigSym    map[*value]*Term
 }
 
 type deferred struct {
@@ -654,8 +655,13 @@ func callSSA(i *interpreter, caller *frame, callpos token.Pos, fn *ssa.Function,
 	if fn.Parent() == nil {
 		name := funcKey(fn)
 		if ext := externals[name]; ext != nil {
-			ps.stubsSeen[name] = true
-			return ext(fr, args)
+			r := ext(fr, args)
+			if _, ft := r.(fallthroughExtT); !ft {
+				ps.stubsSeen[name] = true
+				return r
+			}
+		} else {
+			i.bigGuard(fn, args)
 		}
 		if red := i.env.redirect(name); red != nil {
 			ps.stubsSeen[name+" => "+red.String()] = true
